@@ -416,9 +416,10 @@ fn main() {
             } else {
                 vec![None, Some(9999), Some(10000), Some(10001), Some(4294967295)]
             };
+            limits.sort();
             limits.dedup();
-            // the largest collections only on two modes in the quick tier
-            if n >= 9999 && !is_thorough() && !(mi == 0 || mi == 3 || (mi == 5 && n == 10001)) {
+            // the 25000-item collection on three of the modes in the quick tier
+            if n >= 25000 && !is_thorough() && !(mi == 0 || mi == 3 || mi == 5) {
                 continue;
             }
             for l in limits {
